@@ -560,6 +560,12 @@ func FnName(fn *ssa.Function) string {
 		return fn.Name()
 	}
 	if o, ok := fn.Object().(*types.Func); ok && o != nil && fn.Synthetic == "" {
+		pinMu.Lock()
+		show, hasShow := funcShow[o]
+		pinMu.Unlock()
+		if hasShow {
+			return show[strings.LastIndex(show, ".")+1:]
+		}
 		if n, ok := funcPinned(o); ok {
 			return n
 		}
@@ -800,6 +806,10 @@ func (p *Program) pinPackages(pkgs []*types.Package) {
 			for i := range fns {
 				curSet[names[i]] = true
 			}
+			pinnedNames := map[string]bool{}
+			for _, pe := range pin {
+				pinnedNames[pe.name] = true
+			}
 			for _, pe := range pin {
 				if curSet[pe.name] {
 					continue
@@ -829,6 +839,33 @@ func (p *Program) pinPackages(pkgs []*types.Package) {
 						pinStats["func-reshaped"]++
 						pinRenames = append(pinRenames, "func "+short+": "+names[i]+" stands for "+pe.name)
 					}
+				}
+				if _, done := p.funcUnpin[short+"."+pe.name]; done || pre == "" {
+					continue
+				}
+				// a method that did not use its receiver, now a plain function under a new name: the one new plain
+				// function with exactly the method's signature (receiver dropped)
+				wantSig := strings.TrimPrefix(pe.typ, pre)
+				var cand *types.Func
+				nCand := 0
+				for i, f := range fns {
+					if pinnedNames[names[i]] {
+						continue
+					}
+					sig, _ := f.Type().(*types.Signature)
+					if sig == nil || sig.Recv() != nil {
+						continue
+					}
+					if sigCanon(f) == wantSig {
+						cand = f
+						nCand++
+					}
+				}
+				if nCand == 1 {
+					funcShow[cand] = pe.name
+					p.funcUnpin[short+"."+pe.name] = cand
+					pinStats["func-reshaped"]++
+					pinRenames = append(pinRenames, "func "+short+": "+cand.Name()+" stands for "+pe.name)
 				}
 			}
 		}
